@@ -1,0 +1,83 @@
+//go:build verif
+
+// Contracts for package searcher: DisjunctionHeapSearcher at protocol level (read by /verif/gocv).
+// What is proved here: every call that Advance and updateMatches make on a child searcher, on the
+// heap and on the pool satisfies that callee's precondition (in particular: a child is only ever
+// advanced to a target beyond its own cursor), nothing panics, and the state handed on to
+// updateMatches / Next satisfies the representation invariant. The merge loop of Next (scorer,
+// heap order) is not under contract: its contract below is trusted and listed as such.
+
+package searcher
+
+// ---- representation ----
+// Every SearcherCurr entry e that is live (in the heap, or parked in matchingCurrs) owns one child
+// searcher and that child's current match: the child's cursor is exactly at e.curr.
+// entryOf / holder make "one entry per child, one entry per match" expressible without pairwise
+// quantifiers: two live entries with the same child or the same match are the same entry.
+//@ ghostfield search.DocumentMatch.holder *SearcherCurr
+//@ uf entryOf(sr search.Searcher) *SearcherCurr
+//@ spec entryOK(e *SearcherCurr) bool = e != nil && e.searcher != nil && e.curr != nil && entryOf(e.searcher) == e && e.curr.holder == e && \
+//@     e.searcher.started && !e.searcher.done && e.searcher.last == dmKey(e.curr)
+
+//@ spec dsh(h heap.Interface) *DisjunctionHeapSearcher = h.(*DisjunctionHeapSearcher)
+//@ spec opaque dhas(s *DisjunctionHeapSearcher, e *SearcherCurr) bool = exists(k, 0, len(s.heap), s.heap[k] == e)
+//@ spec opaque ddistinct(s *DisjunctionHeapSearcher) bool = forall(p, 0, len(s.heap), forall(q, p+1, len(s.heap), s.heap[p] != s.heap[q]))
+//@ spec heapEntriesOK(s *DisjunctionHeapSearcher) bool = all(e, *SearcherCurr, implies(dhas(s, e), entryOK(e)))
+// the first n parked entries: live, not in the heap, pairwise different
+//@ spec parkedOK(s *DisjunctionHeapSearcher, mc []*SearcherCurr, n int) bool = forall(k, 0, n, entryOK(mc[k]) && !dhas(s, mc[k])) && forall(p, 0, n, forall(q, p+1, n, mc[p] != mc[q]))
+//@ spec noAlias(a []*SearcherCurr, b []*SearcherCurr) bool = cap(a) == 0 || cap(b) == 0 || base(a) != base(b)
+//@ spec dhsShape(s *DisjunctionHeapSearcher) bool = s.initialized && ddistinct(s) && heapEntriesOK(s) && noAlias(s.heap, s.matchingCurrs)
+//@ spec dhsInv(s *DisjunctionHeapSearcher) bool = dhsShape(s) && parkedOK(s, s.matchingCurrs, len(s.matchingCurrs))
+
+// ---- container/heap on a DisjunctionHeapSearcher (assumed; membership level) ----
+// Pop removes and returns the root: container/heap swaps element 0 to the end, sifts down and calls
+// s.Pop(), which returns the last element.
+//@ assume func heap.Pop(h)
+//@   requires typeis(h, *DisjunctionHeapSearcher) && len(dsh(h).heap) > 0 && all(e, *SearcherCurr, implies(dhas(dsh(h), e), e != nil))
+//@   modifies DisjunctionHeapSearcher.heap, dsh(h).heap[*]
+//@   ensures len(dsh(h).heap) == old(len(dsh(h).heap)) - 1 && typeis(result, *SearcherCurr) && result.(*SearcherCurr) == old(dsh(h).heap[0]) && base(dsh(h).heap) == old(base(dsh(h).heap)) && cap(dsh(h).heap) == old(cap(dsh(h).heap))
+//@   ensures old(dhas(dsh(h), result.(*SearcherCurr)))
+//@   ensures all(y, *SearcherCurr, implies(dhas(dsh(h), y), old(dhas(dsh(h), y))))
+//@   ensures implies(old(ddistinct(dsh(h))), ddistinct(dsh(h)) && !dhas(dsh(h), result.(*SearcherCurr)) && \
+//@             all(y, *SearcherCurr, implies(old(dhas(dsh(h), y)) && y != result.(*SearcherCurr), dhas(dsh(h), y))))
+//@ assume func heap.Push(h, x)
+//@   requires typeis(h, *DisjunctionHeapSearcher) && typeis(x, *SearcherCurr) && x.(*SearcherCurr) != nil && all(e, *SearcherCurr, implies(dhas(dsh(h), e), e != nil))
+//@   modifies DisjunctionHeapSearcher.heap, dsh(h).heap[*]
+//@   ensures len(dsh(h).heap) == old(len(dsh(h).heap)) + 1 && (base(dsh(h).heap) == old(base(dsh(h).heap)) || fresh(dsh(h).heap)) && cap(dsh(h).heap) > 0
+//@   ensures all(y, *SearcherCurr, iff(dhas(dsh(h), y), old(dhas(dsh(h), y)) || y == x.(*SearcherCurr)))
+//@   ensures implies(old(ddistinct(dsh(h))) && !old(dhas(dsh(h), x.(*SearcherCurr))), ddistinct(dsh(h)))
+
+// ---- updateMatches: pop the entries at the least id into matching / matchingCurrs ----
+//@ func DisjunctionHeapSearcher.updateMatches
+//@   props C08
+//@   mode int
+//@   reveal dhas
+//@   requires s != nil && dhsShape(s)
+//@   modifies s.matching, s.matchingCurrs, s.matchingIdxs, s.matching[*], s.matchingCurrs[*], s.matchingIdxs[*], DisjunctionHeapSearcher.heap, s.heap[*]
+//@   ensures result == nil && dhsInv(s)
+//@   loop 0: invariant dhsShape(s) && s.matchingCurrs == old(s.matchingCurrs) && next != nil && entryOK(next) && !dhas(s, next) && len(matchingCurrs) >= 1 && matchingCurrs[len(matchingCurrs)-1] == next
+//@   loop 0: invariant parkedOK(s, matchingCurrs, len(matchingCurrs)) && noAlias(s.heap, matchingCurrs)
+
+// ---- Advance: children behind the target are advanced, then the matches are recomputed ----
+//@ func DisjunctionHeapSearcher.Next
+//@   props C08
+//@   mode int
+//@   trusted the merge loop of Next (scorer, heap order) is not under contract; Advance relies on this contract
+//@   requires s != nil && ctx != nil && ctx.DocumentMatchPool != nil && dhsInv(s)
+//@   modifies fields(DisjunctionHeapSearcher), fields(SearcherCurr), mem(*SearcherCurr), mem(*search.DocumentMatch), mem(int), fields(search.DocumentMatch), search.DocumentMatch.holder, search.Searcher.started, search.Searcher.last, search.Searcher.done, search.DocumentMatchPool.avail
+//@   ensures implies(result1 == nil, dhsInv(s))
+
+//@ func DisjunctionHeapSearcher.Advance
+//@   props C08
+//@   mode int
+//@   prune
+//@   reveal dhas
+//@   requires s != nil && ctx != nil && ctx.DocumentMatchPool != nil && dhsInv(s)
+//@   modifies fields(DisjunctionHeapSearcher), fields(SearcherCurr), mem(*SearcherCurr), mem(*search.DocumentMatch), mem(int), fields(search.DocumentMatch), search.DocumentMatch.holder, search.Searcher.started, search.Searcher.last, search.Searcher.done, search.DocumentMatchPool.avail
+//@   at call searcherCurr.searcher.Advance#0 after: ghost result0.holder = searcherCurr
+//@   ensures implies(result1 == nil, dhsInv(s))
+//@   loop 0: invariant dhsShape(s) && s.matchingCurrs == old(s.matchingCurrs) && ctx.DocumentMatchPool != nil
+//@   loop 0: invariant forall(k, iter, len(s.matchingCurrs), entryOK(s.matchingCurrs[k]) && !dhas(s, s.matchingCurrs[k])) && forall(p, iter, len(s.matchingCurrs), forall(q, p+1, len(s.matchingCurrs), s.matchingCurrs[p] != s.matchingCurrs[q]))
+//@   loop 1: invariant dhsShape(s) && ctx.DocumentMatchPool != nil && parkedOK(s, s.matchingCurrs, len(s.matchingCurrs))
+//@   loop 2: invariant dhsShape(s) && ctx.DocumentMatchPool != nil
+//@   loop 2: invariant forall(k, iter, len(s.matchingCurrs), entryOK(s.matchingCurrs[k]) && !dhas(s, s.matchingCurrs[k])) && forall(p, iter, len(s.matchingCurrs), forall(q, p+1, len(s.matchingCurrs), s.matchingCurrs[p] != s.matchingCurrs[q]))
